@@ -301,7 +301,7 @@ class dbmlobject_dbml:
     params = {'self': ELEMENT}
     pure = True
     ret = 'str'
-    allowed = REFUSALS + ('AttributeMissingError',)
+    allowed = REFUSALS
 
     def returns(self):
         return dbml_of(self)
